@@ -3,8 +3,22 @@
 Histories (list-of-ops, replayable from the JSON case): a transform `t` of a generated invertible class is
 built with parameters held as Parameter / fixed tensor / callable, then a generated sequence of operations
 (inverse(link, update_buffers), .inv, in-place parameter edits, parameter replacement through the public
-setters, inverse of inverse, composition) is applied and after EVERY operation every live (forward, inverse)
+setters - called on the forward member or on the member of an unlinked inverse sharing its parameter container -,
+functional setters data(p) / unlink() / grid(g) / matrix(m) called on either side of a pair with the result dropped,
+inverse of inverse, composition) is applied and after EVERY operation every live (forward, inverse)
 pair is evaluated as modules (so that the update pre-hook runs):  g(f(x)) == x  and  f(g(x)) == x.
+
+Which inverses must follow a REPLACED parameter tensor (data_(), offset_(), angles_(), scales_(), quaternion_(), matrix_()):
+* linked inverses (inverse(link=True), .inv): always (they read the parameters of the transform they are linked to);
+* unlinked inverses of transforms whose parameters are an optimisable torch.nn.Parameter: yes - SpatialTransform.__copy__
+  documents that the shallow copy "shares containers for parameters", inverse() that the inverse "will share the
+  parameters with this transformation", and the property states that the inverse stays an inverse after the forward
+  parameters are changed; members of composites / GenericSpatialTransform included (their inverse inverts each member);
+* unlinked inverses of transforms whose parameters are a fixed tensor (buffer): NOT asserted - the buffer container is
+  documented as not shared and inverse() says that shared tensors may be replaced;
+* callables: every update() asks the callable again, linked or not.
+A functional setter returns a copy "with the specified parameters / grid": neither the receiver nor its inverse partner
+may change (values compared with those of the previous evaluation), and the pair must still round-trip.
 
 Bounds (derived, not fitted):
 * linear models and composites of linear:  64 eps32 * prod_i cond2(H_i) * max(1, |x|), H_i the float64 numpy
@@ -37,15 +51,21 @@ MANIFEST = {
             "Shearing, HomogeneousTransform, Rigid/RigidQuaternion/Similarity/Affine/FullAffine, SequentialTransform, "
             "GenericSpatialTransform, SVF, SVFFD and composites of linear members with one velocity member), parameters held "
             "as Parameter / fixed tensor / callable, oriented grids, both align_corners where allowed. Operations: "
-            "inverse(link, update_buffers), .inv, in-place edits, replacement through public setters / data_, inverse of "
-            "inverse, composition. After every operation all live (forward, inverse) pairs are called as modules and "
-            "inv(t(x)) = x, t(inv(x)) = x, inverse(inverse(t)) = t are asserted with derived bounds; classes without "
-            "inverse must raise NotImplementedError. Exploration: no absence proof; sign / order / stale-parameter errors "
-            "are 2-5 orders of magnitude above the bounds at the generated parameter magnitudes.",
+            "inverse(link, update_buffers), .inv, in-place edits, replacement through public setters / data_ (on the forward "
+            "member or through an unlinked inverse sharing its parameter container), functional setters data(p) / unlink() / "
+            "grid(g) / matrix(m) on either side of a pair, inverse of inverse, composition. After every operation all live "
+            "(forward, inverse) pairs are called as modules and inv(t(x)) = x, t(inv(x)) = x, inverse(inverse(t)) = t are "
+            "asserted with derived bounds; replaced parameters are followed by linked inverses (all parameter kinds) and by "
+            "unlinked inverses of Parameter-held transforms (shared parameter container); a functional setter leaves both "
+            "members of a pair unchanged; classes without inverse must raise NotImplementedError. Exploration: no absence "
+            "proof; sign / order / stale-parameter errors are 2-5 orders of magnitude above the bounds at the generated "
+            "parameter magnitudes.",
     "note": "Trusted: numpy reference matrices of the elementary linear models (only used for the condition number in the "
             "tolerance), the parameter activations of optimisable parameters as implemented by the public setters, the "
             "second-order bound derived in props/c11.py for smooth velocity fields. CPU, float32 parameters. Replaced "
-            "parameters (data_/setters) are only asserted through linked inverses, as documented.",
+            "fixed-tensor (buffer) parameters are only asserted through linked inverses (buffer containers are documented as "
+            "not shared by shallow copies); replaced Parameter-held parameters also through unlinked inverses, as promised by "
+            "the docstrings of SpatialTransform.__copy__ and inverse().",
     "technique": "property-based testing (Hypothesis) of operation histories with metamorphic round-trip oracles and derived tolerances",
 }
 ASSUMPTIONS = [
@@ -54,8 +74,16 @@ ASSUMPTIONS = [
     "velocity fields are sums of band-limited sine products vanishing at the domain boundary, total amplitude <= 2 samples, "
     "wave numbers <= 2, sizes 12..32 (2-D) / 12..16 (3-D); bound 3 A C + floor at grid points (props/c11.py), "
     "+ C/2 at arbitrary points (first-order linear-interpolation term of the point evaluation itself)",
-    "after a parameter tensor is REPLACED (data_, angles_, ...) only inverses created with link=True are asserted; "
-    "in-place edits are asserted through every inverse",
+    "after a FIXED parameter tensor (buffer) is REPLACED (data_, angles_, ...) only inverses created with link=True are "
+    "asserted; a replaced optimisable Parameter is asserted through every inverse (the shallow copy made by inverse() shares "
+    "the parameter container, SpatialTransform.__copy__), callables through every inverse; in-place edits are asserted "
+    "through every inverse",
+    "functional setters: data(p) with any tensor of the parameter shape, unlink(), grid(g) with a grid of different size "
+    "(SVFFD: subdivision 2n-1 of the first dimension of the same domain, the only change BSplineTransform.grid_ supports; "
+    "otherwise n+1 samples and optionally the other align_corners), matrix(m) for the models implementing matrix_ "
+    "(Homogeneous, Quaternion, Euler with orders ZXZ/XZX in 3-D) whose parameters are not provided by a callable or link "
+    "(documented ReadOnlyParameters); the copies returned by data / matrix are evaluated once, then dropped; receiver and "
+    "partner must return the values of the previous evaluation (same parameters, same code path: 4 eps32)",
     "inverses are evaluated in creation order after the forward transform (a linked inverse reads the buffered "
     "parameters of the transform it is linked to)",
 ]
@@ -250,6 +278,15 @@ def svffd_tensor(D, shape, stride, cp_shape, comps) -> torch.Tensor:
 # the interpreter
 
 
+def inv_of(t):
+    """t.inv; an AttributeError raised inside the property is replaced by Module.__getattr__'s "no attribute 'inv'":
+    then the property function is called directly so that the original error (raised inside deepali) is reported."""
+    try:
+        return t.inv
+    except AttributeError:
+        return type(t).inv.fget(t)
+
+
 class ModuleSource(torch.nn.Module):
     """Callable parameter source implemented as a module (e.g. a network head predicting the parameters)."""
 
@@ -275,6 +312,7 @@ class Leaf:
         self.raw = None  # np (N, ...) for linear leaves
         self.comps = None  # velocity: list of {"amp","waves"}
         self.velocity = self.cls in VELOCITY
+        self.path = []  # names of the composite members leading from the current forward transform to this member
 
     def tensor(self) -> torch.Tensor:
         """The tensor object that currently holds the parameters (edited in place by `edit`)."""
@@ -302,7 +340,9 @@ class World:
         self.version = 0
         self.worst = 0.0
         self.labels = set()
-        self.flags = {"changed": False, "linked": False, "skipped_ops": 0, "performed": 0}
+        self.flags = {"changed": False, "linked": False, "skipped_ops": 0, "performed": 0, "replaced_unlinked": False,
+                      "func": False}
+        self.expect_same = None  # set by a functional setter: the next check compares with the previous values
         pts = [list(p) for p in init["pts"]]
         self.grid_pts = 0
         for idx in init.get("gidx", []):
@@ -332,9 +372,10 @@ class World:
     def to_tensor(self, arr) -> torch.Tensor:
         return torch.tensor(np.asarray(arr), dtype=torch.float32)
 
-    def set_linear(self, leaf: Leaf, eff: np.ndarray):
-        """Replace the parameters of a linear leaf through its public setter."""
-        t, cls = leaf.real, leaf.cls
+    def set_linear(self, leaf: Leaf, eff: np.ndarray, obj=None):
+        """Replace the parameters of a linear leaf through its public setter (called on `obj`, a transform which
+        shares the parameters of the leaf, when given)."""
+        t, cls = (leaf.real if obj is None else obj), leaf.cls
         arg = self.to_tensor(eff)
         if leaf.kind == "callable":
             leaf.holder[leaf.key] = arg
@@ -427,6 +468,8 @@ class World:
                 self.leaves.append(self.new_velocity(spec) if spec["cls"] in VELOCITY else self.new_linear(spec))
             self.labels.add("Sequential")
             self.labels.add("Sequential[" + ("nonlinear" if any(l.velocity for l in self.leaves) else "linear") + "]")
+            for i, l in enumerate(self.leaves):
+                l.path = [str(i)]
             return S.SequentialTransform(*[l.real for l in self.leaves])
         if typ == "named":
             name = model["name"]
@@ -438,6 +481,7 @@ class World:
                 t = C(self.grid, groups=self.N)
                 for (attr, cls), spec in zip(members, specs):
                     leaf, eff = self.new_linear(spec, member=getattr(t, attr))
+                    leaf.path = [attr]
                     self.set_linear(leaf, eff)
                     self.leaves.append(leaf)
                 return t
@@ -455,6 +499,7 @@ class World:
             t = C(self.grid, groups=self.N, **kw)
             for (attr, cls), leaf in zip(members, self.leaves):
                 leaf.real = getattr(t, attr)
+                leaf.path = [attr]
             return t
         if typ == "generic":
             from deepali.spatial.generic import GenericSpatialTransform, TransformConfig
@@ -487,6 +532,7 @@ class World:
                     else:
                         leaf, eff = self.new_linear(spec, kind="param", member=member)
                         self.set_linear(leaf, eff)
+                leaf.path = [name]
                 self.leaves.append(leaf)
             return t
         raise ValueError(typ)
@@ -574,9 +620,16 @@ class World:
 
     def add_pair(self, f, g, linked, what):
         self.pairs.append({"f": f, "g": g, "linked": bool(linked), "born": self.version, "ids": self.all_ids(), "what": what,
-                           "pre": []})
+                           "pre": [], "paths": {i: list(l.path) for i, l in enumerate(self.leaves)}})
         if len(self.pairs) > MAX_PAIRS:
             self.pairs.pop(0)
+
+    @staticmethod
+    def member(obj, path):
+        """Member transform of (the inverse of) a composite: members keep their names in the inverse."""
+        for name in path:
+            obj = obj[name]
+        return obj
 
     def immediate(self, g, what):
         """update_buffers=True: the inverse must be usable without calling update() (t is up to date here)."""
@@ -611,7 +664,7 @@ class World:
             self.add_pair(t, g, op["link"], f"inverse(link={op['link']}, update_buffers={op['ub']})")
             self.labels.add(f"inverse(link={bool(op['link'])})")
         elif name == "inv":
-            g = t.inv
+            g = inv_of(t)
             self.immediate(g, ".inv")
             self.add_pair(t, g, True, ".inv")
             self.labels.add(".inv")
@@ -625,7 +678,7 @@ class World:
             # a linked transform reads the parameters buffered by the transform it is linked to: everything up the
             # chain is evaluated first ("pre"), as a user holding the whole chain would do
             self.pairs.append({"f": p["g"], "g": gg, "linked": p["linked"], "born": self.version, "ids": p["ids"],
-                               "what": f"inverse of [{p['what']}]", "pre": p["pre"] + [p["f"]]})
+                               "what": f"inverse of [{p['what']}]", "pre": p["pre"] + [p["f"]], "paths": p["paths"]})
             if len(self.pairs) > MAX_PAIRS:
                 self.pairs.pop(0)
             self.equivs.append({"f": p["f"], "gg": gg, "linked": p["linked"], "born": p["born"], "ids": p["ids"],
@@ -645,6 +698,10 @@ class World:
                 return
             self.version += 1
             self.labels.add("set")
+        elif name == "func":
+            if not self.functional(op):
+                self.flags["skipped_ops"] += 1
+                return
         elif name == "compose":
             spec = op["leaf"]
             leaf = self.new_linear(spec)
@@ -656,6 +713,9 @@ class World:
                 return
             S = self.S
             self.t = S.SequentialTransform(t, leaf.real) if op["where"] == "after" else S.SequentialTransform(leaf.real, t)
+            for l in self.leaves[:-1]:
+                l.path = ["0" if op["where"] == "after" else "1"] + l.path
+            leaf.path = ["1" if op["where"] == "after" else "0"]
             self.labels.add("compose")
         else:
             raise ValueError(name)
@@ -726,6 +786,23 @@ class World:
             leaf.raw = old
         return cond <= COND_MAX
 
+    def sharing_member(self, op, idx):
+        """The transform on which a setter is called: the forward member itself, or (op["on"] == "g", optimisable
+        parameters only) the corresponding member of an unlinked inverse, which shares the parameter container of the
+        forward member (SpatialTransform.__copy__), so that replacing the parameters through it is the same operation."""
+        leaf = self.leaves[idx]
+        if op.get("on") != "g" or leaf.kind != "param":
+            return None
+        cands = [p for p in self.pairs if not p["linked"] and idx in p["ids"]]
+        if not cands:
+            return None
+        p = cands[int(op.get("k", 0)) % len(cands)]
+        obj = self.member(p["g"], p["paths"][idx])
+        if not isinstance(obj.params, torch.nn.Parameter):
+            return None  # inverse(link=True) of an unlinked inverse: its parameters are read-only (ReadOnlyParameters)
+        self.labels.add("set_through_inverse")
+        return obj
+
     def replace(self, op) -> bool:
         """Replace the parameter tensor (public setter / data_, or a new tensor returned by the callable)."""
         idx = int(op["leaf"]) % len(self.leaves)
@@ -739,38 +816,122 @@ class World:
             if leaf.kind == "callable":
                 leaf.holder[leaf.key] = new
             else:
-                leaf.real.data_(new)
+                (self.sharing_member(op, idx) or leaf.real).data_(new)
             leaf.comps = comps
         else:
             eff = self.eff_values(leaf.cls, self.fit_val(leaf, op["val"]))
             chk = eff / np.linalg.norm(eff, axis=-1, keepdims=True) if leaf.cls == "QuaternionRotation" else eff
             if not leaf_valid(leaf.cls, chk) or not self.cond_ok(leaf, raw_of_eff(leaf.cls, chk, leaf.act)):
                 return False
-            self.set_linear(leaf, eff)
-        if leaf.kind != "callable":
-            # documented: only linked inverses follow a replaced parameter tensor
+            self.set_linear(leaf, eff, obj=self.sharing_member(op, idx))
+        if leaf.kind == "buffer":
+            # fixed tensors live in the buffer container, which a shallow copy does not share (SpatialTransform.__copy__):
+            # only linked inverses follow a replaced tensor. Optimisable parameters live in the parameter container that
+            # the copy made by inverse() shares, and callables are asked again by every update(): nothing is dropped.
             self.pairs = [p for p in self.pairs if p["linked"] or idx not in p["ids"]]
             self.equivs = [e for e in self.equivs if e["linked"] or idx not in e["ids"]]
+        for p in self.pairs + self.equivs:
+            if idx in p["ids"]:
+                p["replaced"] = True
+        return True
+
+    def functional(self, op) -> bool:
+        """A functional setter (data(p), unlink(), grid(g), matrix(m): 'shallow copy with ...') is called on one side of a
+        live pair (the whole transform or one of its members); the returned copy is evaluated where that is meaningful
+        and then dropped. Neither the receiver nor its partner may change: `check` compares every pair with the values
+        it had before this operation, then asserts the round trips as usual."""
+        if not self.pairs:
+            self.add_pair(self.t, self.t.inverse(), False, "inverse()")
+            self.check()
+        p = self.pairs[int(op["k"]) % len(self.pairs)]
+        side = op["side"]
+        obj = p[side]
+        how = op["how"]
+        idx = int(op["leaf"]) % len(self.leaves)
+        leaf = self.leaves[idx]
+        if how == "grid" and op.get("whole"):
+            target = obj
+        elif idx in p["ids"]:
+            target = self.member(obj, p["paths"][idx])
+        else:
+            return False
+        if how == "data":
+            if leaf.velocity:
+                arg = self.velocity_tensor(leaf, [dict(op["comp"])])
+            else:
+                arg = self.to_tensor(self.eff_values(leaf.cls, self.fit_val(leaf, op["val"])))
+            c = target.data(arg)
+            c(self.x)
+        elif how == "unlink":
+            c = target.unlink()
+            if c.params is not None:
+                raise Violation("unlink_copy_keeps_parameters", f"{type(c).__name__}.unlink().params is {type(c.params).__name__}")
+        elif how == "matrix":
+            if leaf.cls not in ("HomogeneousTransform", "EulerRotation", "QuaternionRotation"):
+                return False  # matrix_() not implemented by the other models
+            if leaf.cls == "EulerRotation" and self.D == 3 and (leaf.spec.get("order") or "ZXZ").upper() not in ("ZXZ", "XZX"):
+                return False  # euler_rotation_angles() implements these two orders only
+            if callable(target.params):
+                return False  # documented: ReadOnlyParameters when parameters come from a callable (or a linked transform)
+            eff = self.eff_values(leaf.cls, self.fit_val(leaf, op["val"]))
+            D = self.D
+            mats = []
+            for b in range(eff.shape[0]):
+                H = leaf_hom(leaf.cls, D, eff[b], leaf.spec.get("order"))
+                mats.append(H[:D, :] if leaf.cls == "HomogeneousTransform" else H[:D, :D])
+            c = target.matrix(self.to_tensor(np.stack(mats)))
+            c(self.x)
+        elif how == "grid":
+            desc = dict(self.init["grid"])
+            svffd = any(l.cls == "SVFFD" for l in self.leaves)
+            if svffd:  # BSplineTransform.grid_ supports subdivision of the same domain only: 2 n - 1 samples, half spacing
+                desc["size"] = [2 * int(desc["size"][0]) - 1] + [int(n) for n in desc["size"][1:]]
+                desc["spacing"] = [float(desc["spacing"][0]) / 2] + [float(v) for v in desc["spacing"][1:]]
+            else:
+                desc["size"] = [int(n) + 1 for n in desc["size"]]
+                if op.get("ac_toggle"):
+                    desc["ac"] = not bool(desc["ac"])
+            c = target.grid(make_grid(desc))
+            if c is target:
+                raise Violation("grid_copy_is_receiver", f"{type(target).__name__}.grid(g) returned the transform itself")
+        else:
+            raise ValueError(how)
+        self.labels.add(f"func:{how}")
+        self.labels.add(f"func:{how}:on_" + ("forward" if side == "f" else "inverse") + (":linked" if p["linked"] else ":unlinked"))
+        self.expect_same = how
         return True
 
     # ---- oracle -------------------------------------------------------------------------------
     def check(self):
         x = self.x
+        same, self.expect_same = self.expect_same, None
         self.t(x)
         for p in self.pairs:
             f, g = p["f"], p["g"]
             bound = self.pair_bound(p["ids"])
             ctx = ("linked" if p["linked"] else "unlinked") + ":" + self.kind + (":changed" if self.version > p["born"] else ":fresh")
+            if p.get("replaced"):
+                ctx += ":replaced"
             for m in p["pre"]:
                 m(x)
             y = f(x)
+            z = g(x)
+            if same is not None and "last" in p:
+                # same parameters, same code path as in the previous check: identical values (4 eps32 for safety)
+                for new, old, who in ((y, p["last"][0], "receiver_or_partner_forward"), (z, p["last"][1], "receiver_or_partner_inverse")):
+                    b = np.full((x.shape[1], self.D), 4 * EPS32 * max(1.0, float(old.abs().max())))
+                    self.compare(new, old, b, f"functional_setter_modified_pair:{same}:" + ("linked" if p["linked"] else "unlinked") + ":" + self.kind,
+                                 f"{who} of pair [{p['what']}] changed by the functional setter {same}(...) whose result was dropped")
+                self.flags["func"] = True
+            p["last"] = (y.detach().clone(), z.detach().clone())
             xr = g(y)
             self.compare(xr, x, bound, "inv_of_fwd:" + ctx, f"g(f(x)) != x for g = {p['what']}")
-            z = g(x)
             xr2 = f(z)
             self.compare(xr2, x, bound, "fwd_of_inv:" + ctx, f"f(g(x)) != x for g = {p['what']}")
             if self.version > p["born"]:
                 self.flags["changed"] = True
+            if p.get("replaced") and not p["linked"] and self.kind == "param":
+                self.flags["replaced_unlinked"] = True
             if p["linked"]:
                 self.flags["linked"] = True
         for e in self.equivs:
@@ -797,10 +958,14 @@ def run_history(case):
         torch.set_grad_enabled(True)
     nonid = w.identity_distance(w.all_ids()) > 1e-3
     nt = nonid and w.flags["performed"] >= 1 and bool(w.pairs or w.equivs) and (
-        w.flags["changed"] or w.flags["linked"] or w.kind == "callable")
+        w.flags["changed"] or w.flags["linked"] or w.kind == "callable" or w.flags["func"])
     labels = sorted(w.labels) + [f"kind={w.kind}" + ("(module)" if w.kind == "callable" and init.get("module") else ""), f"D={w.D}", f"N={w.N}", f"ac={w.ac}", "grid=" + init["grid"].get("kind", "?")]
     if w.flags["changed"]:
         labels.append("checked_after_change")
+    if w.flags["replaced_unlinked"]:
+        labels.append("unlinked_parameter_pair_checked_after_replacement")
+    if w.flags["func"]:
+        labels.append("pair_compared_across_functional_setter")
     if w.flags["skipped_ops"]:
         labels.append("op_skipped")
     return {"ratio": w.worst, "nontrivial": nt, "labels": labels, "steps": w.flags["performed"]}
@@ -882,10 +1047,33 @@ def edit_op(draw, i, spec, D, damped=False):
 
 
 def set_op(draw, i, spec, D, damped=False):
+    """Replacement through the public setter, called on the forward member or ("on" = "g") on the member of an unlinked
+    inverse that shares its parameter container (optimisable parameters only, else the forward member is used)."""
+    on = {"on": draw(st.sampled_from(["f", "f", "g"])), "k": draw(st.integers(0, 3))}
     if spec["cls"] in VELOCITY:
-        return {"op": "set", "leaf": i, "comp": draw(comp_spec(D))}
+        return {"op": "set", "leaf": i, "comp": draw(comp_spec(D)), **on}
     v = draw(vals(spec["cls"], D))
-    return {"op": "set", "leaf": i, "val": [damp(spec["cls"], v, D) if damped else v]}
+    return {"op": "set", "leaf": i, "val": [damp(spec["cls"], v, D) if damped else v], **on}
+
+
+def func_op(draw, i, spec, D, damped=False):
+    """Functional setter called on the forward ("f") or inverse ("g") side of live pair k, on the member of leaf i
+    (grid: optionally on the whole transform); arguments drawn for the class of the leaf."""
+    cls = spec["cls"]
+    hows = ["data", "data", "unlink", "grid", "grid"] + (["matrix", "matrix"] if cls in ("HomogeneousTransform", "EulerRotation",
+                                                                                       "QuaternionRotation") else [])
+    op = {"op": "func", "how": draw(st.sampled_from(hows)), "side": draw(st.sampled_from(["f", "g", "g"])),
+          "k": draw(st.integers(0, 3)), "leaf": i}
+    if op["how"] == "grid":
+        op["whole"] = draw(st.booleans())
+        op["ac_toggle"] = draw(st.booleans())
+    elif op["how"] in ("data", "matrix"):
+        if cls in VELOCITY:
+            op["comp"] = draw(comp_spec(D, 0.05, 0.8))
+        else:
+            v = draw(vals(cls, D))
+            op["val"] = [damp(cls, v, D) if damped else v]
+    return op
 
 
 def draw_steps(draw, specs, D, N, max_ops, damped=False):
@@ -894,7 +1082,8 @@ def draw_steps(draw, specs, D, N, max_ops, damped=False):
     n = draw(st.integers(2, max_ops))
     composed = 0
     for _ in range(n):
-        what = draw(st.sampled_from(["inverse", "inverse", "inverse", "inv", "edit", "edit", "set", "nest", "compose"]))
+        what = draw(st.sampled_from(["inverse", "inverse", "inverse", "inv", "edit", "edit", "set", "set", "func", "func", "nest",
+                                     "compose"]))
         if what == "compose" and composed >= (1 if damped else 2):
             what = "inverse"
         if what == "inverse":
@@ -909,6 +1098,9 @@ def draw_steps(draw, specs, D, N, max_ops, damped=False):
         elif what == "set":
             i = draw(st.integers(0, len(specs) - 1))
             steps.append(set_op(draw, i, specs[i], D, damped))
+        elif what == "func":
+            i = draw(st.integers(0, len(specs) - 1))
+            steps.append(func_op(draw, i, specs[i], D, damped))
         else:
             spec = draw(linear_spec(D, N))
             if damped:
@@ -1073,14 +1265,22 @@ def fixed_steps(specs, D):
     return [
         {"op": "inverse", "link": False, "ub": False},
         {"op": "inv"},
+        {"op": "func", "how": "data", "side": "g", "k": 0, "leaf": 0, "val": fixed_spec(cls0, D, shift=0.3)["val"]},
+        {"op": "func", "how": "data", "side": "g", "k": 1, "leaf": last, "val": fixed_spec(clsl, D, shift=-0.3)["val"]},
         {"op": "edit", "leaf": 0, "how": "add", "delta": [0.07] * nvals(cls0, D)},
+        {"op": "func", "how": "unlink", "side": "f", "k": 0, "leaf": 0},
         {"op": "nest", "k": 0, "link": True, "ub": False},
-        {"op": "set", "leaf": last, "val": fixed_spec(clsl, D, shift=-0.2)["val"]},
+        {"op": "set", "leaf": last, "val": fixed_spec(clsl, D, shift=-0.2)["val"], "on": "f", "k": 0},
+        {"op": "func", "how": "matrix", "side": "f", "k": 0, "leaf": last, "val": fixed_spec(clsl, D, shift=0.2)["val"]},
+        {"op": "func", "how": "unlink", "side": "g", "k": 1, "leaf": last},
         {"op": "inverse", "link": True, "ub": True},
+        {"op": "set", "leaf": 0, "val": fixed_spec(cls0, D, shift=0.15)["val"], "on": "g", "k": 0},
         {"op": "edit", "leaf": last, "how": "copy", "val": fixed_spec(clsl, D, shift=0.1)["val"]},
+        {"op": "func", "how": "grid", "side": "g", "k": 0, "leaf": 0, "whole": False, "ac_toggle": True},
         {"op": "nest", "k": 2, "link": False, "ub": True},
         {"op": "compose", "leaf": fixed_spec("Translation", D), "where": "after"},
         {"op": "inverse", "link": True, "ub": False},
+        {"op": "func", "how": "grid", "side": "f", "k": 3, "leaf": 0, "whole": True, "ac_toggle": False},
         {"op": "edit", "leaf": 0, "how": "add", "delta": [-0.04] * nvals(cls0, D)},
     ]
 
@@ -1129,10 +1329,16 @@ def enum_velocity(tier):
                     steps = [
                         {"op": "inverse", "link": False, "ub": True},
                         {"op": "inv"},
+                        {"op": "func", "how": "data", "side": "g", "k": 0, "leaf": 0, "comp": {"amp": 0.4, "waves": [1, 1, 1][:D]}},
+                        {"op": "func", "how": "data", "side": "g", "k": 1, "leaf": 0, "comp": {"amp": 0.4, "waves": [1, 1, 1][:D]}},
                         {"op": "edit", "leaf": 0, "how": "add", "comp": {"amp": 0.3, "waves": [2, 1, 1][:D]}},
+                        {"op": "func", "how": "grid", "side": "f", "k": 0, "leaf": 0, "whole": False, "ac_toggle": True},
                         {"op": "nest", "k": 1, "link": True, "ub": True},
-                        {"op": "set", "leaf": 0, "comp": {"amp": 0.9, "waves": [1, 1, 2][:D]}},
+                        {"op": "set", "leaf": 0, "comp": {"amp": 0.9, "waves": [1, 1, 2][:D]}, "on": "f", "k": 0},
+                        {"op": "func", "how": "unlink", "side": "g", "k": 0, "leaf": 0},
                         {"op": "inverse", "link": True, "ub": False},
+                        {"op": "set", "leaf": 0, "comp": {"amp": 0.5, "waves": [2, 1, 1][:D]}, "on": "g", "k": 0},
+                        {"op": "func", "how": "grid", "side": "g", "k": 0, "leaf": 0, "whole": False, "ac_toggle": True},
                         {"op": "edit", "leaf": 0, "how": "mul", "factor": -0.5},
                         {"op": "compose", "leaf": fixed_spec("Translation", D, shift=-0.8), "where": "before"},
                         {"op": "inverse", "link": False, "ub": True},
@@ -1183,7 +1389,7 @@ def run_no_inverse(case):
     call = case["call"]
     try:
         if call == "inv":
-            r = t.inv
+            r = inv_of(t)
         elif call == "inverse":
             r = t.inverse()
         elif call == "inverse_link":
@@ -1198,14 +1404,16 @@ def run_no_inverse(case):
 FACETS = [
     Facet("linear_histories", run_history, strategy=linear_histories,
           rule="elementary / named / Sequential / Generic linear models, parameters as Parameter|buffer|callable, N in {1,2}, "
-               "oriented grids; 2-8 operations of inverse/inv/edit/set/nest/compose; non-trivial = non-identity parameters "
-               "and (a pair was checked after a parameter change made after its creation, or link=True, or callable parameters)",
-          quick=500, thorough=10000, shards=16, quick_shards=4, enumerate=enum_linear),
+               "oriented grids; 2-8 operations of inverse/inv/edit/set (on forward or through an unlinked inverse)/func (functional "
+               "setter on either side of a pair)/nest/compose; non-trivial = non-identity parameters and (a pair was checked after "
+               "a parameter change made after its creation, or link=True, or callable parameters, or a pair was compared across a "
+               "functional setter)",
+          quick=600, thorough=10000, shards=16, quick_shards=4, enumerate=enum_linear),
     Facet("velocity_histories", run_history, strategy=velocity_histories,
           rule="SVF / SVFFD (stride 1-3) alone, in a Sequential with one damped linear member, or in a GenericSpatialTransform "
                "with an affine component; smooth band-limited velocities of total amplitude <= 2 samples; grid points and "
                "arbitrary points; 2-6 operations; same non-triviality rule",
-          quick=200, thorough=3000, shards=16, quick_shards=4, enumerate=enum_velocity),
+          quick=300, thorough=3000, shards=16, quick_shards=4, enumerate=enum_velocity),
     Facet("no_inverse", run_no_inverse, strategy=no_inverse_cases,
           rule="DDF / FFD alone, inside Sequential / MultiLevel / Generic: inverse(...) and .inv must raise NotImplementedError",
           quick=60, thorough=400, shards=2),
